@@ -1,6 +1,8 @@
 package main
 
 import (
+	"os/exec"
+	"path/filepath"
 	"fmt"
 	"os"
 	"strings"
@@ -8,7 +10,14 @@ import (
 	"golang.org/x/tools/go/ssa"
 )
 
-func cmdSelftest(args []string) { fmt.Println("not yet"); os.Exit(2) }
+// cmdSelftest runs the must-fail corpus (/verif/seeded) against scratch worktrees of /repo.
+func cmdSelftest(args []string) {
+	cmd := exec.Command("python3", append([]string{filepath.Join(verifDir, "tools", "selftest.py")}, args...)...)
+	cmd.Stdout, cmd.Stderr = os.Stdout, os.Stderr
+	if err := cmd.Run(); err != nil {
+		os.Exit(1)
+	}
+}
 
 // inline translates the body of a small, loop-free in-repo function in place (no contract needed):
 // the caller is checked against the callee's real body.
